@@ -67,7 +67,7 @@ Definition c05_mod : wmod :=
      wm_deps := []; wm_tdep := None |}.
 Definition c05_world (lock : list (spec * N)) : world :=
   {| w_resp := [(1, WModule 1 c05_mod)]; w_resp_reload := []; w_http := [1]; w_lock := Some lock;
-     w_class := []; w_file := []; w_max_redirects := 10; w_npm := None |}.
+     w_class := []; w_file := []; w_max_redirects := 10; w_wasm_ext := []; w_wasm_nodts := []; w_npm := None |}.
 Definition c05_opts : bopts :=
   {| bo_kind := KAll; bo_is_dynamic := false; bo_skip_dynamic := false; bo_unstable_bytes := false;
      bo_unstable_text := false; bo_unstable_css := false |}.
